@@ -18,6 +18,7 @@ import (
 	"fmt"
 	"go/token"
 	"go/types"
+	"strings"
 
 	"golang.org/x/tools/go/ssa"
 )
@@ -149,4 +150,93 @@ func (w *World) ruleReadersAcceptSpecTags(r *Report, rule string, min int) {
 		}
 	}
 	r.floor(rule+" (container readers with a tag parameter)", n, min)
+	w.ruleReadersDoNotNullLegalTags(r, rule)
 }
+
+// ruleReadersDoNotNullLegalTags: the same question for the other way a reader
+// can decline a value — returning (nil, nil).  The list readers do that for a
+// negative declared length; that depends on an integer read from the wire.
+// Explored per reader with the tag in the production's spec set (reads opaque,
+// loops not entered): a path that returns a nil value with a nil error must
+// have assumed something about a value read from the stream (a refined fact on
+// an opaque read result).  If the tag tests alone lead there — the length of
+// the variable-length form left at its "unknown" initial value — a legal list
+// decodes as null and is never registered.
+func (w *World) ruleReadersDoNotNullLegalTags(r *Report, rule string) {
+	consumers := w.canReach(w.streamConsumers())
+	for fn, label := range w.readerBoundaries() {
+		sp, ok := readerSpecTags[label]
+		if !ok || fn.Blocks == nil {
+			continue
+		}
+		var tagP *ssa.Parameter
+		for _, p := range fn.Params {
+			if b, ok := p.Type().Underlying().(*types.Basic); ok && b.Kind() == types.Uint8 {
+				tagP = p
+			}
+		}
+		idx := errIndex(fn.Signature)
+		if tagP == nil || idx < 0 || fn.Signature.Results().Len() != 2 {
+			continue
+		}
+		S := specTags(sp[0], sp[1])
+		inLoop := map[*ssa.BasicBlock]bool{}
+		for _, lp := range naturalLoops(fn) {
+			for b := range lp.body {
+				inLoop[b] = true
+			}
+		}
+		var nulled ISet
+		pos := ""
+		returns := 0
+		var px *PX
+		px = w.newPX(pxHooks{
+			inline: func(fr *pxFrame, callee *ssa.Function) bool {
+				return !consumers[callee] && !w.isTagPredicate(callee) && w.finiteFn(callee) == nil
+			},
+			prune: func(fr *pxFrame, b *ssa.BasicBlock, st *pxState) bool { return fr.parent == nil && inLoop[b] },
+			onReturn: func(fr *pxFrame, ret *ssa.Return, results []*Term, st *pxState) {
+				returns++
+				if !isNilConst(ret.Results[1-idx]) || !isNilConst(ret.Results[idx]) {
+					return
+				}
+				// did the path assume anything about a value read from the stream?
+				for k, v := range st.env {
+					if strings.Contains(k, "<x#") && !strings.Contains(k, "nil:error") && !strings.HasPrefix(k, "(") {
+						if full, ok := typeRangeOfKey(w, k); !ok || !v.Equal(full) {
+							return
+						}
+					}
+					if strings.HasPrefix(k, "(") && strings.Contains(k, "<x#") && !strings.Contains(k, "nil") {
+						return // a comparison involving a read value was decided on this path
+					}
+				}
+				I, _ := px.evalTerm(px.term(tagP, fr, st), st)
+				if I == nil {
+					I = S
+				}
+				nulled = nulled.Union(I.Intersect(S))
+				if pos == "" {
+					pos = w.instrPos(ret)
+				}
+			},
+		})
+		px.maxPaths, px.maxSteps = 4000, 100000
+		px.Run(fn, Env{"<p:" + tagP.Name() + ">": S})
+		key := fmt.Sprintf("%s · %s tags are not answered with null", fnName(fn), label)
+		switch {
+		case px.Truncated:
+			r.undecided(rule, key, w.pos(fn.Pos()), "path exploration truncated")
+		case !nulled.Empty():
+			r.add(rule, key, pos, false, fmt.Sprintf("with tag ∈ %s the reader returns (nil, nil) at %s without having assumed anything about a value read from the stream: a legal %s decodes as null and is never registered", nulled.HexString(), pos, label))
+		default:
+			o := r.add(rule, key, w.pos(fn.Pos()), true, fmt.Sprintf("%d returns before the element loop: none is a (nil, nil) reached on tag tests alone", returns))
+			o.Trivial = returns == 0
+		}
+	}
+}
+
+// typeRangeOfKey: unknown here — a fact recorded under a read result's own key
+// is an assumption unless it is the full range; keys carry no type, so any
+// recorded set counts as an assumption.
+func typeRangeOfKey(w *World, k string) (ISet, bool) { return nil, false }
